@@ -272,6 +272,56 @@ func isReferringSet(v ssa.Value) bool { return isReferringSetD(v, 0) }
 var liftProg *Prog // set by checkC03/C11 so that helper parameters can be resolved at their call sites
 
 func isReferringSetD(v ssa.Value, depth int) bool {
+	// a variable captured by a closure: judged by what every creation site of the closure binds to it
+	if fv, ok := v.(*ssa.FreeVar); ok && depth < 4 {
+		fn := fv.Parent()
+		idx := -1
+		for i, x := range fn.FreeVars {
+			if x == fv {
+				idx = i
+			}
+		}
+		if fn.Parent() == nil || idx < 0 {
+			return false
+		}
+		found, all := false, true
+		for _, b := range fn.Parent().Blocks {
+			for _, in := range b.Instrs {
+				mc, ok := in.(*ssa.MakeClosure)
+				if !ok || mc.Fn != ssa.Value(fn) || idx >= len(mc.Bindings) {
+					continue
+				}
+				found = true
+				bv := mc.Bindings[idx]
+				// captured by reference: the binding is the cell; look at what the cell holds
+				if al, isAl := bv.(*ssa.Alloc); isAl {
+					okCell := false
+					for _, u := range refs(al) {
+						if st, isSt := u.(*ssa.Store); isSt && st.Addr == ssa.Value(al) {
+							okCell = isReferringSetD(st.Val, depth+1)
+						}
+					}
+					if !okCell {
+						all = false
+					}
+					continue
+				}
+				if !isReferringSetD(bv, depth+1) {
+					all = false
+				}
+			}
+		}
+		return found && all
+	}
+	if u, ok := v.(*ssa.UnOp); ok {
+		if fv, isFV := u.X.(*ssa.FreeVar); isFV {
+			return isReferringSetD(fv, depth)
+		}
+		// a parameter spilled to a cell because a closure captures it
+		if sv := localLoadValue(u); sv != nil && depth < 6 {
+			return isReferringSetD(sv, depth+1)
+		}
+	}
 	if pa, ok := v.(*ssa.Parameter); ok {
 		if pa.Parent().Signature.Recv() != nil && pa == pa.Parent().Params[0] && structOf(pa.Type()) != nil && structOf(pa.Type()).Obj().Name() == "TemplateSet" {
 			return true
